@@ -771,6 +771,8 @@ class ObjCell(Cell):
           return ctx.engine.call_value(ctx, m.func, [ref], {})
         if isinstance(m, StaticMethodV):
           return m.func
+        if isinstance(m, ClassMethodV):
+          return m
         return BoundMethod(ref, m)
     ctx.oblige(f'attr.{name}', False, kind='definedness',
                detail=f'AttributeError: {self.label or "object"}.{name}')
@@ -805,6 +807,15 @@ class PropertyV(Val):
 
   def __init__(self, func):
     self.func = func
+
+
+class ClassMethodV(Val):
+
+  def __init__(self, func, cls=None):
+    self.func, self.cls = func, cls
+
+  def call(self, ctx, args, kwargs):
+    return ctx.engine.call_value(ctx, self.func, [self.cls] + list(args), kwargs)
 
 
 class StaticMethodV(Val):
